@@ -34,7 +34,7 @@ REACH_EXPECTED = ['pam_dst_dn', 'pam_dst_up_assig_other', 'pam_dst_up_assig_this
 
 def check(ctx, P, g, where, sut_exact=True):
     sc = None
-    if sut_exact and P.metric_name != 'callable':
+    if sut_exact and not P.metric_name.startswith('callable'):
         from enspara.cluster import util
         sc = util._get_distance_method(P.metric_name)
     elif sut_exact:
@@ -79,8 +79,7 @@ def scenario(ctx):
         init = None
         if not mpi and t.flag(1, 3):
             m = t.irange(1, min(4, P.n))
-            init = sorted({t.draw(P.n) for _ in range(m)})
-            t.perm(1)
+            init = t.perm(P.n)[:m]          # distinct frames in any order (e.g. the discovery order of an earlier run)
         spec = dict(algo='kcenters', form=form, k=k, cutoff=cutoff, tri=t.flag() and form == 'function')
         if init is not None:
             spec['init_centers'] = P.X[init].copy()
